@@ -163,6 +163,7 @@ fn handler(req: Request) -> Response {
         "/big" => Response::text(200, big_body()),
         "/huge" => Response::text(200, "h".repeat(32 * 1024 * 1024)),
         "/up" => Response::text(200, format!("up-{}", req.body.len().unwrap_or(0))),
+        "/upf" => if req.body.is_pending() { Response::get_body_and_reprocess(10_000_000) } else { Response::text(200, format!("upf-{}", req.body.len().unwrap_or(0))) },
         _ => Response::text(200, "ok"),
     }
 }
@@ -313,6 +314,14 @@ fn client_run(c: &mut TcpStream, kind: char, id: usize) -> String {
             std::thread::sleep(Duration::from_millis(20));
             r.split('/').next().unwrap().to_string()
         }
+        'w' => {
+            // an upload that the handler accepts (it goes to a file); the client leaves the interim response unread and
+            // closes in the middle of the body: the server's read fails with a reset, not with the end of the stream
+            let _ = c.write_all(b"POST /upf HTTP/1.1\r\ncontent-length: 200000\r\nexpect: 100-continue\r\n\r\n");
+            let _ = c.write_all(&vec![b'u'; 3000]);
+            std::thread::sleep(Duration::from_millis(60));
+            "-".to_string()
+        }
         'k' => {
             let _ = c.write_all(b"GET /ok HTTP/1.1\r\n\r\n");
             let r = read_response(&mut c);
@@ -333,8 +342,11 @@ fn client_run(c: &mut TcpStream, kind: char, id: usize) -> String {
 pub fn case_limit(ctx: &mut Ctx, n: &str, kinds: &str, delays: &str) {
     let nn: usize = n.parse().unwrap();
     let kinds_v: Vec<char> = kinds.chars().collect();
-    let delays_v: Vec<u64> = delays.split(',').map(|d| d.parse().unwrap()).collect();
+    // `L1:` in front of the delays: the application's logger is stalled (its one-slot queue is full and never drained) throughout
+    let (stalled, delays_rest) = match delays.strip_prefix("L1:") { Some(r) => (true, r), None => (false, delays) };
+    let delays_v: Vec<u64> = delays_rest.split(',').map(|d| d.parse().unwrap()).collect();
     let obs = guard(move || {
+        let _logger = if stalled { Some(stalled_logger_guard()) } else { None };
         let srv = start(nn);
         let gated = kinds_v.iter().filter(|k| "gepdEPD".contains(**k)).count();
         let handles: Vec<_> = kinds_v.iter().enumerate().map(|(i, &k)| {
@@ -658,6 +670,46 @@ pub fn run_upload_revoked(ctx: &mut Ctx) {
     }
 }
 
+/// c13p: the connection task itself (`handle_http_conn`) with `k` requests already waiting and a permit that is revoked before
+/// the task starts (`j` = 0), by the handler of the `j`-th request, or never (`j` = -).
+pub fn case_permit(ctx: &mut Ctx, k: &str, j: &str) {
+    let kk: usize = k.parse().unwrap();
+    let jj: Option<usize> = j.parse().ok();
+    let obs = guard(move || {
+        let crate::net::Pair { mut client, conn } = crate::net::pair();
+        for i in 0..kk { client.write_all(format!("GET /{i} HTTP/1.1\r\n\r\n").as_bytes()).unwrap(); }
+        let _ = client.shutdown(std::net::Shutdown::Write);
+        let parent = Arc::new(Mutex::new(Some(Permit::new())));
+        let sub = parent.lock().unwrap().as_ref().unwrap().new_sub();
+        if jj == Some(0) { parent.lock().unwrap().take(); }
+        let calls = Arc::new(std::sync::atomic::AtomicUsize::new(0));
+        let (calls2, parent2) = (calls.clone(), parent.clone());
+        let handler = move |_req: Request| {
+            let (calls3, parent3) = (calls2.clone(), parent2.clone());
+            async move {
+                let n = calls3.fetch_add(1, std::sync::atomic::Ordering::SeqCst) + 1;
+                if Some(n) == jj { parent3.lock().unwrap().take(); }
+                Response::text(200, "served")
+            }
+        };
+        crate::io_script::block_on(servlin::internal::handle_http_conn(sub, Token::new(), conn, None, 65536, handler));
+        let t = crate::net::read_transcript(&mut client);
+        let served = String::from_utf8_lossy(&t).matches("HTTP/1.1 200 OK").count();
+        format!("served={served} calls={}", calls.load(std::sync::atomic::Ordering::SeqCst))
+    });
+    ctx.emit("c13p", &[k, j], &obs);
+}
+
+pub fn run_permit(ctx: &mut Ctx) {
+    let mut idx = 0u64;
+    for k in 0..=5usize {
+        for j in ["-".to_string()].into_iter().chain((0..=k + 1).map(|x| x.to_string())) {
+            idx += 1;
+            if ctx.mine(idx) { case_permit(ctx, &k.to_string(), &j); }
+        }
+    }
+}
+
 pub fn run_tokens(ctx: &mut Ctx) {
     let mut idx = 0u64;
     // large sets: more units than any fixed-size internal queue one might pick
@@ -677,7 +729,7 @@ pub fn run_tokens(ctx: &mut Ctx) {
 pub fn run_limit(ctx: &mut Ctx) {
     let mut rng = Rng::new(ctx.seed.wrapping_add(12));
     let count = if ctx.thorough() { 160 } else { 24 };
-    let all = ['g', 'e', 'p', 'd', 'm', 'a', 'u', 'v', 'k', 'r', 'E', 'P', 'D', 'M'];
+    let all = ['g', 'e', 'p', 'd', 'm', 'a', 'u', 'v', 'w', 'k', 'r', 'E', 'P', 'D', 'M'];
     for idx in 0..count {
         let n = 1 + (idx as usize % 4);
         let clients = rng.range(2 * n as u64, 3 * n as u64) as usize;
@@ -685,7 +737,18 @@ pub fn run_limit(ctx: &mut Ctx) {
         let dominant = if rng.chance(1, 2) { Some(all[rng.below(all.len() as u64) as usize]) } else { None };
         let kinds: String = (0..clients).map(|_| match dominant { Some(k) if rng.chance(2, 3) => k, _ => all[rng.below(all.len() as u64) as usize] }).collect();
         let delays: Vec<String> = (0..clients).map(|_| rng.below(12).to_string()).collect();
-        if ctx.mine(idx + 1) { case_limit(ctx, &n.to_string(), &kinds, &delays.join(",")); }
+        // every fourth history runs under a stalled logger
+        let prefix = if idx % 4 == 3 { "L1:" } else { "" };
+        if ctx.mine(idx + 1) { case_limit(ctx, &n.to_string(), &kinds, &format!("{prefix}{}", delays.join(","))); }
+    }
+    // histories made of connections that end in an error (malformed request, aborted upload with a reset), under a stalled logger
+    for (j, (n, kinds)) in [(2usize, "mmmmgg"), (1, "mmwmg"), (2, "wwwwgg"), (3, "mwmwmwggg"), (2, "MmMmgg")].iter().enumerate() {
+        for prefix in ["L1:", ""] {
+            if ctx.mine(1000 + j as u64) {
+                let delays: Vec<String> = (0..kinds.len()).map(|i| (i * 3).to_string()).collect();
+                case_limit(ctx, &n.to_string(), kinds, &format!("{prefix}{}", delays.join(",")));
+            }
+        }
     }
 }
 
